@@ -20,7 +20,7 @@ def doc_wrap_value(ctx):
     return int(m.group(1)) if m else None
 
 
-def run(ctx, chk):
+def run_rules(ctx, chk):
     fb = ctx.facts()
     chk.explanation = ('Effect sequence of every path of ShmWrite::write (P4) and exhaustive evaluation of the extracted '
                        'stored-value terms and path atoms over all 65 536 generation values an update can start from '
@@ -143,3 +143,15 @@ def run(ctx, chk):
     chk.analysed['call_sites'] += n_sites
     chk.floor('C11.P5', 'atomic store sites inspected', n_sites, 3)
     chk.tables['atomic_writers'] = {k: v for k, v in writers.items()}
+
+
+CONTROLS = [('C11.P2', 'all-65536:even-nonzero-after')]
+
+
+def run(ctx, chk):
+    """the rules on /repo, then the positive controls: the same rules must fire on fixtures/shm_broken"""
+    import sys
+    from .. import core
+    run_rules(ctx, chk)
+    if not getattr(chk, '_is_control', False) and not isinstance(ctx, core.FixtureCtx) and not chk.suffix:
+        core.run_controls(chk, sys.modules[__name__], 'shm_broken', CONTROLS)
